@@ -4,7 +4,7 @@ From Coq Require Import ZArith List Bool Arith.
 From Cspuz Require Import Lib.PyErr Core.Expr Core.Program Core.Build
   Graph.GraphModel Graph.ReachProofs Graph.Avc Graph.AvcProofs
   Graph.NotAdj Graph.NotAdjForest Graph.NotAdjDiag Graph.NotAdjBounded Graph.NotAdjBoundedIndep Graph.NotAdjSem Graph.NotAdjMain
-  Graph.NotAdjCompose.
+  Graph.NotAdjCompose Graph.NotAdjPlanarA Graph.NotAdjPlanarB Graph.NotAdjPlanarMain.
 Import ListNotations.
 Local Open Scope nat_scope.
 
@@ -86,10 +86,31 @@ Theorem spec_diag_b_decides : forall h w act, spec_diag_b h w act = true <-> spe
 Proof. exact NotAdjDiag.spec_diag_b_spec. Qed.
 Print Assumptions spec_diag_b_decides.
 
-(* bounded: on independent patterns of grids with h, w >= 2 and h*w <= 16 the
-   diagonal forest condition is "the inactive cells are connected" (kernel
-   computation over all independent patterns of all such shapes).  The unbounded statement
-   NotAdj.diag_equiv_statement is NOT proved. *)
+(* the planar-separation theorem, every grid size: on an independent pattern of
+   an h x w grid with h, w >= 2 the diagonal forest condition holds exactly when
+   the inactive cells induce a connected subgraph of the orthogonal grid.
+   Direction A (forest => connected) by induction on the number of active cells,
+   removing the active cell of largest certificate rank (at most one active
+   diagonal neighbour, none on the border) and re-routing paths around it;
+   direction B (connected => forest, every h and w) by a crossing-parity argument
+   for diagonal walks, closed outside the grid for walks between border cells. *)
+Theorem diag_equiv_dirA : forall h w act, 2 <= h -> 2 <= w ->
+  independent (grid_graph h w) act -> spec_diag h w act -> connected (grid_graph h w) (inactive act).
+Proof. exact NotAdjPlanarA.diag_equiv_dirA. Qed.
+Print Assumptions diag_equiv_dirA.
+
+Theorem diag_equiv_dirB : forall h w act,
+  independent (grid_graph h w) act -> connected (grid_graph h w) (inactive act) -> spec_diag h w act.
+Proof. exact NotAdjPlanarB.diag_equiv_dirB. Qed.
+Print Assumptions diag_equiv_dirB.
+
+Theorem diag_equiv : forall h w act, 2 <= h -> 2 <= w -> independent (grid_graph h w) act ->
+  (spec_diag h w act <-> connected (grid_graph h w) (inactive act)).
+Proof. exact NotAdjPlanarMain.diag_equiv. Qed.
+Print Assumptions diag_equiv.
+
+(* (kept: the same equivalence for h*w <= 16 by kernel computation over all
+   independent patterns -- an independent check of the statement above) *)
 Theorem diag_equiv_bounded : forall h w act, 2 <= h -> 2 <= w -> h * w <= 16 ->
   independent (grid_graph h w) act ->
   (spec_diag h w act <-> connected (grid_graph h w) (inactive act)).
@@ -124,7 +145,21 @@ Theorem not_segmenting_grid_exact_bounded : forall cfg st h w l en,
 Proof. exact NotAdjCompose.not_segmenting_grid_exact_bounded. Qed.
 Print Assumptions not_segmenting_grid_exact_bounded.
 
-(* ... and for every size if the planar-separation statement were available *)
+(* grid form, h, w >= 2, EVERY size: exactly the graph definition *)
+Theorem not_segmenting_grid_exact : forall cfg st h w l en,
+  2 <= h -> 2 <= w ->
+  length l = h * w -> (forall a, In a l -> is_boolexpr a = true) ->
+  fresh_below (next_id st) l -> acts_defined en l ->
+  exists st',
+    post_not_segmenting cfg st (AArr2 h w l) None = (st', None) /\
+    ((exists en', agree_below (next_id st) en en' /\
+                  in_bounds_from en' (next_id st) (new_vars st st') = true /\
+                  forallb (holds gsem_avc en') (new_cons st st') = true)
+     <-> spec_not_segmenting (grid_graph h w) (pattern en l)).
+Proof. exact NotAdjPlanarMain.not_segmenting_grid_exact. Qed.
+Print Assumptions not_segmenting_grid_exact.
+
+(* (kept: the conditional form the theorem above was obtained from) *)
 Theorem not_segmenting_grid_exact_if_diag_equiv : forall cfg st h w l en,
   diag_equiv_statement ->
   2 <= h -> 2 <= w ->
@@ -163,6 +198,17 @@ Theorem grid_form_matches_graph_form_bounded : forall st h w l en stg stx,
   (completable st stg en <-> completable st stx en).
 Proof. exact NotAdjCompose.grid_form_matches_graph_form_bounded. Qed.
 Print Assumptions grid_form_matches_graph_form_bounded.
+
+(* ... and for every h, w >= 1 *)
+Theorem grid_form_matches_graph_form : forall st h w l en stg stx,
+  1 <= h -> 1 <= w ->
+  length l = h * w -> (forall a, In a l -> is_boolexpr a = true) ->
+  fresh_below (next_id st) l -> acts_defined en l ->
+  post_not_segmenting false st (AArr2 h w l) None = (stg, None) ->
+  post_not_segmenting false st (AArr1 l) (Some (grid_graph h w)) = (stx, None) ->
+  (completable st stg en <-> completable st stx en).
+Proof. exact NotAdjPlanarMain.grid_form_matches_graph_form. Qed.
+Print Assumptions grid_form_matches_graph_form.
 
 (* well-formed input raises nothing *)
 Theorem not_segmenting_graph_succeeds : forall st l g,
